@@ -253,6 +253,10 @@ class World(object):
                 cfg.server_static_public = PublicKey(self.server_key.public.data)
             elif v == "IKnew":
                 cfg.server_static_public = PublicKey(os.urandom(32))
+            if step.get("login"):
+                # the account changes between two logins of one process (the server-assigned login replaces the dialled number)
+                cfg.login = step["login"]
+            self.want_account = int(cfg.login or cfg.phone)     # read from the configuration itself, not through the profile
             self.key_before = cfg.server_static_public.data if cfg.server_static_public else None
             self.srv = NoiseServer(static=self.server_key, corrupt_hello=(v == "BAD"))
             self.srvs = getattr(self, "srvs", []) + [self.srv]
@@ -492,7 +496,7 @@ def verdict(w, deadlock, script):
         srv = w.srvs[-1] if getattr(w, "srvs", None) else None
         if srv is not None and state == "transport":
             p = srv.client_payload
-            if p is None or p.username != int(w.profile.username) or bool(p.passive) != w.passive or p.push_name != "verif" \
+            if p is None or p.username != w.want_account or bool(p.passive) != w.passive or p.push_name != "verif" \
                     or p.user_agent.mcc != "000" or not p.user_agent.app_version.primary:
                 problems.append(("login-payload", "login payload does not present the configured account / passive flag / attributes: %s" % (str(p)[:200],)))
             from yowsup.layers.coder.decoder import ReadDecoder
@@ -544,7 +548,7 @@ def run():
     traces, meta = [], []
     try:
         scripts = [[{"v": v}] for v in VARIANTS]
-        scripts += [[{"v": "XX"}, ] , [{"v": "IK", "passive": True}]]
+        scripts += [[{"v": "XX"}, ] , [{"v": "IK", "passive": True}], [{"v": "IK", "login": "4915770000777"}]]
         recon = []
         for cut in ("early", "afterhello", "late"):
             for v1 in ("XX", "IK"):
@@ -602,6 +606,9 @@ def run():
                     script = [dict(script[0], passive=True), dict(script[1], passive=False)]
                 elif k % 3 == 0 and k > 0:
                     script = [dict(script[0], passive=False), dict(script[1], passive=True)]
+                if k % 2 == 1:
+                    # the configured account differs between the attempts (histories x configurations)
+                    script = [dict(script[0]), dict(script[1], login="4915770000%03d" % rng.randrange(1000))]
                 # every second run: an application thread that sends while the handshake of the attempt that gets cut off is running
                 w, dl = run_one(script, rng, "fair" if k == 0 else "pct", edge, "whole", early=(k % 2 == 1))
                 try:
